@@ -1,6 +1,5 @@
 use super::Optimizer;
 use crate::linalg::Vector;
-use approx_eq::rel_diff;
 use reverse::*;
 
 /// Implements the Stochastic Gradient Descent optimizer with (Nesterov) momentum.
@@ -122,7 +121,12 @@ impl Optimizer for SGD {
 
             if crate::statistics::max(
                 &(0..param_len)
-                    .map(|i| rel_diff(params[i].val(), prev_params[i].val()))
+                    .map(|i| {
+                        // relative change of the parameter (rel_diff compares magnitudes only and
+                        // reports "no change" when a parameter merely flips its sign)
+                        let (a, b) = (params[i].val(), prev_params[i].val());
+                        (a - b).abs() / a.abs().max(b.abs()).max(f64::MIN_POSITIVE)
+                    })
                     .collect::<Vec<_>>(),
             ) < f64::EPSILON
             {
